@@ -138,6 +138,13 @@ fn main() {
                 stages::float_pi_exact::<f64>(geti(&m, "count", 1000) as u64, geti(&m, "seed", 1) as u64)
             }
         }
+        "float-order-exact" => {
+            if m.contains_key("f32") {
+                stages::float_order_exact::<f32>(geti(&m, "count", 1000) as u64, geti(&m, "seed", 1) as u64)
+            } else {
+                stages::float_order_exact::<f64>(geti(&m, "count", 1000) as u64, geti(&m, "seed", 1) as u64)
+            }
+        }
         "replay-sweep" => stages::replay_sweep(gets(&m, "file", "")),
         "replay-pi" => {
             let (fr, off, ax, dc) = (geti(&m, "frame", 0) as i32, geti(&m, "offset", 0), m.contains_key("only-axis"), geti(&m, "decoy", 0) as u32);
